@@ -23,12 +23,15 @@ def check(run):
     combos = [(0, 0, 0, 0), (0, 2, 1, 3), (-1, 2, 2, 2), (2, 3, -2, 4), (1, 1, -3, 3), (-2, 5, 0, 0)] if quick else \
         [(sf, Lf, sg, Lg) for sf in (-4, -2, -1, 0, 1, 3) for sg in (-3, 0, 2, 4) for Lf in (abs(sf), 6, 12) for Lg in (abs(sg), 5)]
     leads = [((), ()), ((2,), (2,)), ((2, 1), (3,))]
+    kcount = 0
     for (sf, Lf, sg, Lg) in combos:
         Lf, Lg = max(Lf, abs(sf)), max(Lg, abs(sg))
         for la, lb in leads[: (2 if quick else 3)]:
-            f = helpers.make_modes(rng, sf, Lf, la)
-            g = helpers.make_modes(rng, sg, Lg, lb)
-            inp = {"s_f": sf, "ell_max_f": Lf, "s_g": sg, "ell_max_g": Lg, "lead_f": list(la), "lead_g": list(lb)}
+            kf, kg = helpers.KINDS[kcount % 10], helpers.KINDS[(3 * kcount + 1) % 10]     # value patterns (tiny/huge units, real, axisymmetric, sparse, decaying ...)
+            kcount += 1
+            f = helpers.make_modes(rng, sf, Lf, la, kf)
+            g = helpers.make_modes(rng, sg, Lg, lb, kg)
+            inp = {"s_f": sf, "ell_max_f": Lf, "s_g": sg, "ell_max_g": Lg, "lead_f": list(la), "lead_g": list(lb), "weights_f": kf, "weights_g": kg}
             fe, ge = ev(f, Rs), ev(g, Rs)
             n = fe.shape[-1]
             sh = np.broadcast_shapes(la, lb)
@@ -137,7 +140,8 @@ def check(run):
                     run.violation("scalar-op-raised", name, inp, "scaled function", repr(e))
                     continue
                 run.gap_case("scalar", (sf, Lf, la, name), name)
-                if not isinstance(r, spherical.Modes) or r.spin_weight != sf or r.ell_max != Lf or not (float(np.max(np.abs(ev(r, Rs) - expect))) <= tol):
+                tol_f = 4096 * (Lf + 2) ** 2 * EPS * 4 * max(float(np.max(np.sum(np.abs(f.ndarray), axis=-1))), 1e-300)    # relative to f alone (scalars here have modulus <= 4)
+                if not isinstance(r, spherical.Modes) or r.spin_weight != sf or r.ell_max != Lf or not (float(np.max(np.abs(ev(r, Rs) - expect))) <= tol_f):
                     run.violation("scalar-op-not-pointwise", name, inp, "scaled function", "differs")
             if not la and f.shape[-1] > 1:
                 try:
